@@ -126,6 +126,7 @@ def _run_path(E, c, fnode, cls, params, canary):
     env = {}
     fr = Frame(c.rel, cls, c.qual, env)
     fr.loops = c.loops
+    fr.local_types = c.local_types
     fr.loop_ids = B.loop_ids(fnode)
     E.frames.append(fr)
     try:
@@ -153,6 +154,7 @@ def _run_path(E, c, fnode, cls, params, canary):
             env[a.vararg.arg] = ()
         if c.setup:
             c.setup(E)
+        E.ct_reset()
         for text in c.requires:
             E.assume(E.spec_eval(text))
         E.heap_old = dict(E.heap)
@@ -179,14 +181,18 @@ def _run_path(E, c, fnode, cls, params, canary):
             raise Unsupported("break/continue outside loop")
         E.cur_line = fnode.lineno
         # post-conditions speak about the ENTRY values of the parameters (a body may reassign them)
+        final_locals = E.frame.env
         env = dict(E.env_old)
+        for k_, v_ in final_locals.items():
+            if k_ not in env and not k_.startswith("_"):
+                env["L_" + k_] = v_          # final value of a local, for clauses guarded by the path they need
         E.frame.env = env
         env["result"] = result
         if outcome == "return":
             if canary:
                 E.oblige("canary", z3.BoolVal(False), "ensures False (must fail)", assume_after=False)
             else:
-                for text in c.ensures:
+                for text in list(c.ensures) + list(c.local_ensures):
                     E.oblige("post", E.spec_eval(text), _txt(text), assume_after=False)
         else:
             env["exc"] = exc
@@ -239,6 +245,7 @@ def _txt(text):
 def check_frame(E, c):
     """every heap location not named in `modifies` is unchanged (proved, not assumed)"""
     allowed = {}
+    allbut = {}
     E.spec += 1
     saved_heap = E.heap
     try:
@@ -246,6 +253,16 @@ def check_frame(E, c):
             if callable(m):
                 for key, ref in getattr(m, "frame", lambda E: [])(E):
                     allowed.setdefault(key, []).append(ref)
+                ab = getattr(m, "allbut", None)
+                if ab:
+                    E.heap = dict(E.heap_old)
+                    keeps = [E.eval(E.reg.parse_clause(k)) for k in ab[1]]
+                    E.heap = saved_heap
+                    for cls_, names in ab[0].items():
+                        for attr in names:
+                            fname, ty = E.fkey(cls_, attr)
+                            for i, _ in enumerate(sorts(ty)):
+                                allbut.setdefault(("f", fname, i), []).extend(k.t for k in keeps)
                 continue
             m = m.strip()
             for when_heap in (E.heap_old, saved_heap):
@@ -274,9 +291,9 @@ def check_frame(E, c):
                         node = E.reg.parse_clause(m)
                         if isinstance(node, ast.Attribute):
                             obj = E.eval(node.value)
-                            ty = E.field_type(obj.cls, node.attr)
+                            fname, ty = E.fkey(obj.cls, node.attr)
                             for i, _ in enumerate(sorts(ty)):
-                                allowed.setdefault(("f", node.attr, i), []).append(obj.t)
+                                allowed.setdefault(("f", fname, i), []).append(obj.t)
                 except PyRaise:
                     pass
     finally:
@@ -288,6 +305,15 @@ def check_frame(E, c):
             # array first touched after entry: its pre-state is the base constant
             old = z3.Const("H_" + "_".join(str(k) for k in key), arr.sort())
         if arr.eq(old):
+            continue
+        if key in allbut:
+            # everything may change except the kept objects (unless they are separately allowed)
+            refs = allowed.get(key, [])
+            goals = []
+            for kt in allbut[key]:
+                goals.append(z3.Or(z3.Select(arr, kt) == z3.Select(old, kt), *[kt == x for x in refs]))
+            E.oblige("frame", z3.And(*goals) if goals else z3.BoolVal(True),
+                     "the kept objects' %s is unchanged" % "_".join(map(str, key)), assume_after=False)
             continue
         r = z3.Int("r!frame")
         refs = allowed.get(key, [])
